@@ -88,7 +88,13 @@ class SimTransport(TransportDecorator):
     def _do(self, op, relpath, mutating, fn, extra="", vol=None):
         p = self._p(relpath)
         d = _S().before_op(op, p, mutating, extra, vol=vol)
-        r = fn(d)
+        try:
+            r = fn(d)
+        except BaseException:
+            # the op ran and failed on its own; a "crash after this op" still happens now
+            if _S().current().pending_crash_after:
+                _S().after_op(op, p)
+            raise
         _S().after_op(op, p)
         return r
 
